@@ -1,5 +1,6 @@
 SPECIFICATION Spec
-CONSTANTS Transport = "legacy"
+CONSTANTS
+  LockedSteps = {} Transport = "legacy"
 INVARIANTS NothingBeforeTheEnd GaugeNeverNegative
 PROPERTIES EndingReleasesEverything ReleasedIsStable
 CHECK_DEADLOCK FALSE
